@@ -38,6 +38,30 @@ CHECKS = {
         "Trusted: axiom table and tolerance model in pbt/common/metrics.py.",
         "DESIGN.md sections 5 and 6, C08",
     ),
+    "C12": (
+        "Hypothesis over sample sets / tied matrices x k x heights; oracle = sorted-distance reference for the k-NN lists, radius, per-rank maxima and bound, and the statement's density model",
+        "Exploration: neighbour lists, radii, per-rank maxima, the density bound (with its 1e-5 fallback), constant, pdf, stored range, affine map, initial costs and maxima elimination are recomputed from outside for every generated sub-graph (duplicates, lattice ties, k > n-1 included).",
+        "Trusted: reference computations in pbt/props/c12.py; mapped densities compared with a conditioning-aware tolerance.",
+        "DESIGN.md section 6, C12",
+    ),
+    "C13": (
+        "Hypothesis over KNN-supervised / unsupervised training sets; oracle = cluster-forest validity predicate decided from outside (distances, densities, predecessor links)",
+        "Exploration: every generated fit is checked against the forest predicates of the statement (acyclic, recorded root, label/cluster of root, root cost, link cost min rule, strictly above density-1, graph neighbour by distance, density below root+1, cluster numbering, label propagation).",
+        "Trusted: densities are read from the model (C12 decides them); neighbour clause is a necessary condition under k-th-distance ties.",
+        "DESIGN.md section 6, C13",
+    ),
+    "C14": (
+        "Hypothesis over fitted models x queries at batch positions below and above n_train; oracle = tie-aware admissible set of the exhaustive k-nearest max-min rule",
+        "Exploration: for every generated model and query the returned label (and cluster) must be admissible under the exhaustive rule computed from outside, at two different batch positions.",
+        "Trusted: cost / labels / constant / density range read from the model; both divisors k and k+1 accepted for the query density.",
+        "DESIGN.md section 6, C14",
+    ),
+    "C16": (
+        "Hypothesis over fits with max_k >= 2; criterion observed by wrapping opf_accuracy / _normalized_cut from outside; oracle = first arg-max / arg-min over the recorded candidates + reference accuracy + final model consistency",
+        "Exploration: the recorded candidate sequence must be complete (1..max_k; min_k.. contiguous with early stop only after a zero cut), best_k must be the smallest optimal candidate, and the final model's stored density range and conquest arcs must correspond to best_k.",
+        "Trusted: cut values as the library computes them; accuracy re-computed with the C20 reference.",
+        "DESIGN.md section 6, C16",
+    ),
     "C15": (
         "Hypothesis + bounded-exhaustive labeled+unlabeled sets (incl. bridge data); oracle = C01 fix point and forest predicate on the union graph, C02 oracle on the labeled sub-graph, differential vs SupervisedOPF for an empty unlabeled set",
         "Exploration: as C01/C02 on the union graph; with an empty unlabeled set every node field, the conquest order and predictions must equal supervised training.",
